@@ -114,7 +114,9 @@ def run(ctx):
             def alt(t):
                 if t[0] == 'I' and t[1].startswith(EX + 'n'):
                     if t[1] not in ren:
-                        ren[t[1]] = rng.choice([t[1], 'urn:isbn:' + t[1][len(EX):], 'http://example.com/' + t[1][len(EX):], 'http://example.org/books/' + t[1][len(EX):]])
+                        ren[t[1]] = rng.choice([t[1], 'urn:isbn:' + t[1][len(EX):], 'http://example.com/' + t[1][len(EX):], 'http://example.org/books/' + t[1][len(EX):],
+                                                        # below another instance's IRI: `.../n0` is then a proper prefix of `.../n0/n3` (the fold must commute there too)
+                                                        EX + 'n0/' + t[1][len(EX):], EX + 'n0/' + t[1][len(EX):]] if t[1] != EX + 'n0' else [t[1]])
                     return ('I', ren[t[1]])
                 return t
             g = [(alt(s_), p_, alt(o_)) for s_, p_, o_ in g]
